@@ -161,8 +161,9 @@ class C09(Check):
     rule = ("member × receiver × argument lattice: receivers = tables of boolean / integer / decimal / string / bytes / tuple "
             "elements with 1..3 dimensions and 0..3 elements, strings and bytes of length 0..3, tuples, null receivers; element "
             "arguments = matching, int/decimal mixable, mismatching scalar, other-structure tuple, hash-colliding tuple, typed "
-            "null (same / mixable / other type), untyped null, tables of the same / lower / higher level and of another type, "
-            "null tables; positions = {-1, 0, 1, n-1, n, n+1, INT64_MAX, INT64_MIN, null integer, untyped null, decimal 1.0, "
+            "null (same / mixable = NULL decimal for an integer table or item and vice versa, which must store a null element "
+            "of the container's own type / other type), untyped null, tables of the same / lower / higher level and of another "
+            "type, null tables; positions = {-1, 0, 1, n-1, n, n+1, INT64_MAX, INT64_MIN, null integer, untyped null, decimal 1.0, "
             "null decimal}. Values are stored exactly into variables X, Y, Z; the program `r = x.member(y, z);` runs twice per "
             "case: with the static types of the values (compile-time checks first) and with opaque static types (run-time "
             "checks); the result R, the receiver X after the call (in place), the argument variables and the error code are "
@@ -296,12 +297,10 @@ class C09(Check):
             for size in range(3):
                 tables.append((k, 3, size, table(k, 3, size, 2)))
         self.stats["tables"] = len(tables)
-        hazard_budget = {}
-
-        def hazardous(k, a):
-            # typed-null / out-of-range decimal into an integer table (and the converse): the C++ dereferences null / casts
-            return (k == "i" and a in ("N:d0", DBIG)) or (k == "d" and a == "N:i0")
-
+        # A typed-null decimal given for an integer table (and the converse), an out-of-range decimal: these cells used to
+        # end in a crash of the probe (null dereference, undefined cast) and were therefore sampled sparingly. Both are
+        # repaired upstream (9e8652f: a null element of the table's own type is stored; bf3229b: OUT_OF_RANGE), so the whole
+        # lattice is run: every (table, position, argument) combination, like any other argument.
         for (k, dim, size, T) in tables:
             pos = positions(size)
             eargs = elem_args(k, dim)
@@ -321,19 +320,8 @@ class C09(Check):
                     for a in eargs:
                         if (p, a) in done:
                             continue
-                        if hazardous(k, a) and p == "I:0" and size > 0:
-                            # each crash costs a probe restart: a few per (member, kind) are enough
-                            key = (member, k, a)
-                            hazard_budget[key] = hazard_budget.get(key, 0) + 1
-                            if hazard_budget[key] > (2 if quick else 6):
-                                continue
                         both(member, T, [p, a])
             for a in eargs:
-                if hazardous(k, a):
-                    key = ("concat", k, a)
-                    hazard_budget[key] = hazard_budget.get(key, 0) + 1
-                    if hazard_budget[key] > (2 if quick else 6):
-                        continue
                 both("concat", T, [a])
             # self-aliasing: the argument is the receiver variable itself
             both("concat", T, [T], alias=(0,))
@@ -482,7 +470,9 @@ class C09(Check):
             return self.seq_case(cid, recv, steps)
         dim = r.choice([1, 1, 2, 2, 3])
         recv = table(kind, dim, r.randint(0, 3), r.randint(0, 5))
-        pool = [a for a in elem_args(kind, dim) if a not in ("N:d0", "N:i0", DBIG) or (kind == "i" and a == "N:i0") or (kind == "d" and a == "N:d0")]
+        # the whole argument lattice, typed nulls of the other numeric type and out-of-range decimals included (no cell of it
+        # ends the probe any more)
+        pool = elem_args(kind, dim)
         good = pool[:3]
         for _ in range(r.randint(4, 12)):
             m = r.choice(["concat", "concat", "insert", "insert", "put", "put", "delete", "at", "count"])
